@@ -1123,7 +1123,7 @@ impl RaftLogManager {
         save_logs.push(new_log_range.clone());
         let index_request = RaftIndexRequest::SaveLogs(save_logs);
         self.index_manager.as_ref().unwrap().do_send(index_request);
-        let log_actor_addr = Self::create_log_actor(&self.base_path, &new_log_range);
+        let log_actor_addr = Self::create_new_log_actor(&self.base_path, &new_log_range);
         self.logs.push(LogRangeWrap {
             log_range: new_log_range,
             log_actor: Some(log_actor_addr.clone()),
@@ -1417,7 +1417,7 @@ impl RaftLogManager {
             save_logs.insert(0, pointer_log_range.clone());
             let index_request = RaftIndexRequest::SaveLogs(save_logs);
             self.index_manager.as_ref().unwrap().do_send(index_request);
-            let log_actor_addr = Self::create_log_actor(&self.base_path, &pointer_log_range);
+            let log_actor_addr = Self::create_new_log_actor(&self.base_path, &pointer_log_range);
             log_actor_addr.do_send(RaftLogRequest::Write(snapshot_pointer));
             self.logs.insert(
                 0,
@@ -1478,6 +1478,15 @@ impl RaftLogManager {
             .join(format!("log_{}", log_range.id))
             .to_string_lossy()
             .into_owned()
+    }
+
+    /// A log file that is being added to the catalogue starts empty. A file of the same name can
+    /// be left behind by a kill that hit after the file was written and before the catalogue
+    /// listing it was saved; adopting its records would put the log out of step with its index.
+    fn create_new_log_actor(base_path: &str, log_range: &LogRange) -> Addr<RaftLogActor> {
+        let path = Self::get_log_path(base_path, log_range);
+        std::fs::remove_file(path).ok();
+        Self::create_log_actor(base_path, log_range)
     }
 
     fn create_log_actor(base_path: &str, log_range: &LogRange) -> Addr<RaftLogActor> {
